@@ -82,6 +82,7 @@ type world struct {
 	overlaps       int
 	quiescentExact int
 	prevCnt        [][2]int
+	expiredNotes   []string // leases that certainly expired mid-run (see expireCertainly)
 }
 
 // Rules that belong to C19 whatever property is being checked; everything
